@@ -23,6 +23,7 @@ def regenerate_all():
     import gen_trsclip
     import gen_json
     import gen_diag
+    import gen_scaling
     steps = [("tables", lambda: gen.regenerate(None)), ("callsites", lambda: gen_callsites.regenerate(None)),
              ("radius", lambda: gen_radius.regenerate(None)), ("booksites", lambda: gen_booksites.regenerate(None)),
              ("bookcalls", lambda: gen_bookcalls.regenerate(None)), ("exitsites", lambda: gen_exitsites.regenerate(None)),
@@ -33,7 +34,8 @@ def regenerate_all():
              ("trproj", lambda: gen_kernels.regenerate_trproj(None)), ("hcalls", lambda: gen_hcalls.regenerate(None)),
              ("sfista", lambda: gen_sfista.regenerate(None)), ("ownership", lambda: gen_ownership.regenerate(None)),
              ("unscale", lambda: gen_unscale.regenerate(None)), ("trsclip", lambda: gen_trsclip.regenerate(None)),
-             ("json", lambda: gen_json.regenerate(None)), ("diag", lambda: gen_diag.regenerate(None))]
+             ("json", lambda: gen_json.regenerate(None)), ("diag", lambda: gen_diag.regenerate(None)),
+             ("scaling", lambda: gen_scaling.regenerate(None))]
     for name, fn in steps:
         try:
             fn()
